@@ -17,6 +17,8 @@ TECH = {
             "fsspec file contract; n, rpc, steps enumerated; offsets/sizes symbolic"),
     "C07": ("CrossHair/z3 symbolic execution of open_image / read_cache / create_cache / cli.create_cache / array codec on a world model with symbolic cache state, options and product protocol; concrete end-to-end witness replays",
             "json, pathlib, hashlib, fsspec, construct record parsing are contract stubs (validated each run); geometry and rpc enumerated per instance"),
+    "C08": ("CrossHair/z3 symbolic execution of the real encoders/decoders over an integer model of numpy (int64 wrap, NaT, units) and a structural json contract: round trip decided for all element values",
+            "numpy and json are models validated against the real libraries through the real codec each run; |time values| < 2**62; float/str element conversion trusted"),
     "C09": ("CrossHair/z3 symbolic execution of the cache glue with both index locations symbolic over absent/complete/torn-at-k (k, length symbolic)",
             "interrupted writes are modelled by the prefixes they leave; json prefix lemma validated on every prefix of a real document each run"),
     "C10": ("CrossHair/z3: one inductive step of a symbolic operation from an arbitrary state satisfying the cache invariant; option threading and aliasing decided on symbolic options",
